@@ -580,6 +580,23 @@ func C09Corpus(args []string) {
 				}
 			}
 		}
+		// the blueprint carries run-time state at the moment an instance is taken: it was executed directly and every
+		// rule is retracted on it. An instance is a copy of the RULES: it behaves like the fresh blueprint did.
+		if lb, err := hx.Build(p); err == nil {
+			bp := lb.Lib.GetKnowledgeBase(hx.KBName, hx.KBVer)
+			hx.RunOn(p, bp, mkWorld(), hx.RunOpts{MaxCycle: 6, NoSnapshots: true}, nil)
+			for _, r := range p.Rules {
+				bp.RetractRule(r.Name)
+			}
+			mu.Lock()
+			nBehav++
+			mu.Unlock()
+			if inst, err := lb.Instance(); err != nil {
+				report("C09:instance-of-a-used-blueprint-fails", err.Error()+"\n  grl: "+p.Text, id)
+			} else if tr := hx.RunOn(p, inst, mkWorld(), hx.RunOpts{MaxCycle: 6, NoSnapshots: true}, nil); hx.Evs(tr.Events) != hx.Evs(bpTrace.Events) {
+				report("C09:instance-inherits-run-time-state-of-the-blueprint", fmt.Sprintf("an instance taken from a blueprint that had been executed and whose rules are retracted: %v, the fresh blueprint: %v\n  grl: %s", tr.Events, bpTrace.Events, p.Text), id)
+			}
+		}
 		// the library evolves BETWEEN instantiations (instances were created above): a rule is removed from the
 		// library, later another one is built into it; every later NewKnowledgeBaseInstance succeeds and the
 		// instance behaves like the same rules built fresh; an instance obtained earlier is unaffected
